@@ -65,6 +65,13 @@ def run(ctx):
     ctx.guard(scope, ctx)
     ctx.guard(select, ctx)
     ctx.guard(slots, ctx)
+    # mechanisms the interpreter's results rest on, decided by rule groups defined with other properties
+    from . import c02 as _c02, c07 as _c07, c08 as _c08, c09 as _c09, lexrules as _lex
+    _g = _lex.grammar_of(ctx.repo, 'bridgepoint.oal:OALParser')
+    ctx.shared(_c07.lists, ctx, _g)            # statement / elif / parameter lists are built in source order
+    ctx.shared(_c08.taint, ctx, _g, _c08.keyword_fields(ctx, _g))   # keyword-carrying fields (cardinality ...) are read case-normalised
+    ctx.shared(_c09.nav, ctx)                  # navigation behind select ... related by
+    ctx.shared(_c02.linkops, ctx)              # relate / unrelate
     ctx.assume('xtuml.relate/unrelate/delete/select/navigate behave as C02/C09 decide')
     ctx.assume('whole-program semantic equivalence with a relational reference evaluator is a runtime quantity and is not decided')
     return ('Exhaustiveness of evaluators against the Node classes the grammar can construct; operator tables compared '
